@@ -69,6 +69,10 @@ type Case struct {
 	WantOrder []string `json:"observed_produces_order,omitempty"`
 	Flow      string   `json:"flow,omitempty"` // "" the reflective (untyped) operation handler; "generated": RouteInfo, BindValidRequest, Respond as a generated server's operation does
 	Body      bool     `json:"body,omitempty"` // POST with an admitted JSON body (needs api.post_twin) instead of a body-less GET
+	// Earlier: the Accept field lines of requests served by the same handler (same operation, flow and
+	// body) just before this one; a replay serves them first, unjudged. State kept across requests is
+	// part of what is judged: each request is negotiated from its own header alone.
+	Earlier [][]mon.Q `json:"earlier_requests,omitempty"`
 }
 
 func (c *Case) lines() []string {
@@ -769,7 +773,7 @@ func runHandlerOn(m *mon.M, c *Case, b *built, h http.Handler) {
 	rec := httptest.NewRecorder()
 	minimal := func() *Case {
 		d := &APIDesc{DefaultProduces: b.desc.DefaultProduces, Global: b.desc.Global, Ops: []OpDesc{b.desc.Ops[c.Op]}, Post: b.desc.Post && body}
-		return &Case{Kind: "handler", Absent: c.Absent, Lines: c.Lines, API: d, Op: 0, WantOrder: b.obs.produces, Flow: c.Flow, Body: body}
+		return &Case{Kind: "handler", Absent: c.Absent, Lines: c.Lines, API: d, Op: 0, WantOrder: b.obs.produces, Flow: c.Flow, Body: body, Earlier: c.Earlier}
 	}
 	if pv, st := mon.Catch(func() { h.ServeHTTP(rec, req) }); pv != nil {
 		// a panic is never attributed away; when ParseAccept already fails its oracle on this header the
@@ -874,6 +878,15 @@ func runHandlerReplay(m *mon.M, c *Case) {
 		h, ctx = b.handler()
 		if len(c.WantOrder) == 0 || sameList(producesOf(ctx, c.Op), c.WantOrder) {
 			break
+		}
+	}
+	if len(c.Earlier) > 0 {
+		scratch := mon.New("C07", "quick", 0, 0, 1, "")
+		scratch.SetReplayMode()
+		for _, el := range c.Earlier {
+			e := *c
+			e.Earlier, e.Lines, e.Absent = nil, el, false
+			runHandlerOn(scratch, &e, b, h)
 		}
 	}
 	runHandlerOn(m, c, b, h)
@@ -1022,6 +1035,17 @@ func run(m *mon.M) {
 			m.Class("handler-flavour:" + fl)
 			m.Begin(c)
 			runHandlerOn(m, c, b, hs[q%len(hs)])
+			if !absent && len(lines) > 1 {
+				// follow-ups on the same handler that share the first field line with the request just served
+				// but are to be negotiated differently
+				other, _, _ := genLines(r3, types)
+				for _, fl := range [][]string{lines[:1], append([]string{lines[0]}, other...)} {
+					f := &Case{Kind: "handler", Lines: mon.QS(fl), API: d, Op: op, Flow: c.Flow, Body: c.Body, Earlier: [][]mon.Q{mon.QS(lines)}}
+					m.Class("handler-flavour:follow-up-sharing-first-line")
+					m.Begin(f)
+					runHandlerOn(m, f, b, hs[q%len(hs)])
+				}
+			}
 		}
 	}
 }
